@@ -35,7 +35,7 @@ vars == <<l, pc, ix, nsub, acc, prev, tenv, hist, gwseen, cal, outs>>
 NoOuts == [dcount |-> 0, dlast |-> 0, dprev |-> 0, ycount |-> 0, ylast |-> 0, ccount |-> 0]
 
 NoIx == [gen |-> 0, cfg |-> 0, top |-> 0, wea |-> 0, gw |-> 0, inp |-> 0, eva |-> 0, stp |-> 0,
-         pre |-> 0, wat |-> 0, crop |-> 0, min |-> 0, mov |-> 0, nit |-> 0, den |-> 0, dend |-> 0, cropPrev |-> 0]
+         pre |-> 0, wat |-> 0, crop |-> 0, min |-> 0, mov |-> 0, nit |-> 0, den |-> 0, dend |-> 0, cropPrev |-> 0, stpPrev |-> 0]
 NoAcc == [wdt |-> LZero, tp |-> LZero, q1n |-> LZero, qdr |-> LZero, fin |-> LZero, clamp |-> LZero]
 NoPrev == [has |-> FALSE, sEnd |-> LZero, zeit |-> 0, growing |-> FALSE, intw |-> 0, akf |-> 0]
 NoEnv == [init |-> FALSE, lo |-> 0, hi |-> 0]
@@ -99,7 +99,7 @@ TDayEvatra == /\ IsEvent("day.evatra") /\ pc = "evatra"
               /\ Keep(<<nsub, acc, prev, tenv, hist, gwseen>>)
 
 TDaySteps == /\ IsEvent("day.steps") /\ pc = "steps"
-             /\ pc' = "subPre" /\ ix' = [ix EXCEPT !.stp = l]
+             /\ pc' = "subPre" /\ ix' = [ix EXCEPT !.stp = l, !.stpPrev = ix.stp]
              \* the envelope is widened by the value imposed at the surface today (TD[0]); layers are judged against it
              /\ tenv' = [tenv EXCEPT !.lo = Min(@, E.TD[1]), !.hi = Max(@, E.TD[1])]
              /\ Keep(<<nsub, acc, prev, hist, gwseen>>)
@@ -287,7 +287,9 @@ C08_Rooted == AfterEvatra => \A i \in Layers : (i * 1000000 > Min(Eva.wurz * 100
 C08_Available == (AfterSubWater /\ Wat.subd = 1) =>
    \A i \in Layers : Wat.TP[i] \div 10 <= Max(0, Wat.WG0[i] - Eva.WMIN[i]) + 2 * TolTheta
 C08_Ratios == AfterEvatra => Eva.trrel >= 0 /\ Eva.trrel <= 1000000000 /\ Eva.etrel >= 0 /\ Eva.etrel <= 1000000000
-C08_All == C08_PotCap /\ C08_NonNeg /\ C08_ActualLePot /\ C08_Rooted /\ C08_Available /\ C08_Ratios
+\* ... and all of them are numbers
+C08_Finite == (l > 1 /\ Ev.ev \in {"day.evatra", "sub.pre", "sub.water"} /\ Has(Ev, "finite")) => Ev.finite
+C08_All == C08_Finite /\ C08_PotCap /\ C08_NonNeg /\ C08_ActualLePot /\ C08_Rooted /\ C08_Available /\ C08_Ratios
 
 \* =============================================================================================
 \* C19  soil temperature inside the envelope of its boundary values
@@ -295,8 +297,20 @@ C08_All == C08_PotCap /\ C08_NonNeg /\ C08_ActualLePot /\ C08_Rooted /\ C08_Avai
 TolT == 2
 C19_Envelope == AfterSteps => \A i \in 1..Len(Ev.TD) : Ev.TD[i] >= tenv.lo - TolT /\ Ev.TD[i] <= tenv.hi + TolT
 C19_Stable == AfterSteps => \A i \in 1..Len(Ev.r) : Ev.r[i] >= 0 /\ Ev.r[i] <= 500000
+\* no overshoot, day by day (discrete maximum principle): the temperatures of the layers today lie between the lowest and
+\* the highest of yesterday's profile (the initial profile on the first day), today's surface value and the lower boundary -
+\* whatever the scheme is, as long as it neither oscillates nor overshoots
+SeqMin(s) == CHOOSE m \in {s[i] : i \in 1..Len(s)} : \A i \in 1..Len(s) : m <= s[i]
+SeqMax(s) == CHOOSE m \in {s[i] : i \in 1..Len(s)} : \A i \in 1..Len(s) : m >= s[i]
+C19_MaxPrinciple == AfterSteps =>
+   LET old == IF ix.stpPrev > 0 THEN Trace[ix.stpPrev].TD ELSE Cfg.TS0
+       lo == Min(Min(SeqMin(old), Ev.TD[1]), Ev.tbase)
+       hi == Max(Max(SeqMax(old), Ev.TD[1]), Ev.tbase)
+   IN \A i \in 1..Len(Ev.TD) : Ev.TD[i] >= lo - TolT /\ Ev.TD[i] <= hi + TolT
 C19_LowerBoundary == AfterSteps => Ev.TD[Len(Ev.TD)] = Ev.tbase
-C19_All == C19_Envelope /\ C19_Stable /\ C19_LowerBoundary
+\* every layer temperature is a number
+C19_Finite == (l > 1 /\ Ev.ev = "day.steps" /\ Has(Ev, "finite")) => Ev.finite
+C19_All == C19_Finite /\ C19_Envelope /\ C19_MaxPrinciple /\ C19_Stable /\ C19_LowerBoundary
 
 
 \* =============================================================================================
@@ -627,7 +641,9 @@ C09_PhenologyOrder == (IsOut("out.crop") /\ Has(Ev, "emerg") /\ outs.ccount <= L
       /\ Ev.sowdoy = DateOfN(sz).doy
       /\ Ev.hdoy = DateOfN(hz).doy
       /\ Chain(sz, <<Ev.emerg, Ev.anth, Ev.mat>>) <= hz
-C09_All == C09_PhenologyOrder /\ C09_NonNeg /\ C09_Stress /\ C09_RootDepth /\ C09_StageMonotone /\ C09_StageDay /\ C09_ReportedPhenology
+\* the crop state is finite while a crop is growing
+C09_Finite == (Growing /\ Has(Ev, "finite")) => Ev.finite
+C09_All == C09_Finite /\ C09_PhenologyOrder /\ C09_NonNeg /\ C09_Stress /\ C09_RootDepth /\ C09_StageMonotone /\ C09_StageDay /\ C09_ReportedPhenology
 
 \* =============================================================================================
 \* C16  rotation followed; automatic management inside its windows
